@@ -151,3 +151,21 @@ def c11(ctx):
                 "settings must return the same object; substituting an absent symbol or the identity map must return "
                 "the input itself")
     simple(ctx, "MC_C11", "Trace_Val", floor=0.3)
+
+
+@plan("C13")
+def c13(ctx):
+    ctx.rule = ("TLC explores every init/call history of one evaluator object up to the depth bound (5 output "
+                "lists with 0-3 shared sub-expressions so that the CSE buffer grows and shrinks between "
+                "initialisations, both cse settings, 3 input vectors; real and complex visitors) and emits each "
+                "history ending in a call; each is replayed on ONE real visitor object; for every call TLC demands "
+                "outputs bit-identical to a fresh object and to a fresh object without CSE, and equal to the exact "
+                "value wherever the expression stays in the exact fragment (dyadic inputs: IEEE arithmetic is exact)")
+    depth = 5 if ctx.thorough else 4
+    for kind in ("r", "c"):
+        cases = ctx.gen("MC_Lambda", stage="lambda_" + kind, cfg="MC_Lambda_%s%d.cfg" % (kind, depth), workers=4, heap="6g")
+        events = ctx.drive("base", cases)
+        bad = ctx.validate("Trace_Lambda", events, floor=0.5)
+        ctx.judge(bad, cases)
+    ctx.exhaustive = True
+    ctx.extra["depth_bound"] = depth
